@@ -82,6 +82,19 @@ Theorem C08_ack_log_in_schedule_order : forall c s1 w s2,
 Proof. exact ack_log_app. Qed.
 Print Assumptions C08_ack_log_in_schedule_order.
 
+(* without a failing write(2) the files never contain bytes that are not a whole event (chunk 0) *)
+Theorem C08_no_torn_chunk : forall c fids dm k0 ops,
+  special c = false -> fault_free ops -> clock_ok k0 ops -> Forall write_id_nonzero ops ->
+  ~ In 0%N (pruned (run c fids dm k0 ops) ++ reading (files (run c fids dm k0 ops))).
+Proof. exact no_torn_chunk. Qed.
+Print Assumptions C08_no_torn_chunk.
+
+(* outside C08's quantifier (needs a failing write(2)): the write-retry branch can leave the bytes of a failed first
+   attempt in the file, in front of the whole event it then writes *)
+Theorem C08_outside_quantifier_retry_leaves_partial :
+  acked (ex_retry retry_partial) = [1%N] /\ reading (files (ex_retry retry_partial)) = [0%N; 1%N].
+Proof. exact retry_leaves_partial. Qed.
+
 (* the hypotheses are satisfiable by a history with rotations, retention, an external rename, a failed rotation and Reopen *)
 Theorem C08_nonvacuous :
   special ex_cfg = false /\ fault_free ex_ops /\ clock_ok 0 ex_ops /\
